@@ -125,6 +125,18 @@ class Snap(VC):
                                                                           for k, p, v in ctx.storage[ns].slots]))
         if self.crate == GROUP:
             ob.require("C09.total_equals_sum_of_member_weights", zimplies(pre["total"].value == members_sum(pre), ctx.storage["total"].value == members_sum(ctx.storage)))
+            if self.variant == "UpdateMembers":
+                # the true history is what the admin asked for: afterwards every added address is a member with exactly the requested
+                # weight (also weight 0) unless the same call removes it, and every removed address is not a member
+                adds = lazy_forced(ctx, m.get("add")); rems = lazy_forced(ctx, m.get("remove"))
+                now = {ctx.atom_of(k[0]): (p, w) for k, p, w in ctx.storage["members"].slots}
+                removed = {ctx.atom_of(x) for x in (rems.items if rems is not None else [])}
+                for x in (adds.items if adds is not None else []):
+                    a = ctx.atom_of(x.get("addr"))
+                    p, w = now.get(a, (False, 0))
+                    ob.require("C09.update_installs_exactly_the_requested_weights", znot(p) if a in removed else zand(p, w == x.get("weight")))
+                for a in removed:
+                    ob.require("C09.update_removes_the_requested_members", znot(now.get(a, (False, 0))[0]))
         ob.witness("queried_past", h <= H)
         ob.witness("queried_future", h > H)
         if self.what == "member":
